@@ -9,18 +9,23 @@ void logon() {
   enable_commands();
   add_action("do_m", "m");
   add_action("do_s", "s", 1);
+  add_action("do_x", "x");
   L("logon " + idx);
   if (cmode) get_char("gc");
 }
 mixed process_input(string s) {
   L("pi " + idx + " " + s);
-  if (s == "m") return 0;                 // let the verb run: it issues three commands through command()
+  if (s == "m" || s == "x") return 0;     // let the verb run (m: three commands through command(); x: raises an error)
+  if (s == "e") { L("err " + idx); error("c12: uncaught error in process_input\n"); }
+  if (s == "j") input_to("itx");          // the next buffered line goes to a callback that raises an error
   if (s == "q") { L("gone " + idx); destruct(this_object()); }
   if (s == "i") input_to("it", PLAN->query_fl());   // the next buffered line goes to it(); the flags word is the mudlib's
   if (s == "g") get_char("it", PLAN->query_fl());
   return 1;
 }
 void it(string s) { L("it " + idx + " " + s); }
+void itx(string s) { L("it " + idx + " " + s); L("err " + idx); error("c12: uncaught error in input_to callback\n"); }
+int do_x(string a) { L("err " + idx); error("c12: uncaught error in verb\n"); return 1; }
 int do_m(string a) { command("s1"); command("s2"); if (PLAN->query_st() != 2) command("s3"); return 1; }
 int do_s(string a) { L("sub " + idx + " " + query_verb()); return 1; }
 void gc(string c) { L("gc " + idx + " " + c); get_char("gc"); }
